@@ -145,6 +145,8 @@ func (ex *Exec) ghostHeapVal(name string, st *State) (Val, bool) {
 	switch name {
 	case "$nextref":
 		return Val{T: ex.getHeap(st, "$nextref", SInt), Ty: tyInt}, true
+	case "$seq":
+		return Val{T: ex.getHeap(st, "$seq", SInt), Ty: tyInt}, true
 	case "$held":
 		return Val{T: ex.getHeap(st, "$held", ArrS(SInt, SInt)), Ty: tyIMap}, true
 	case "$wg":
@@ -458,6 +460,8 @@ func (ex *Exec) evSel(x *SSel, env *Env) Val {
 				return Val{T: EvInt(obj.T), Ty: tyInt}
 			case "obj2":
 				return Val{T: EvObj2(obj.T), Ty: tyRef}
+			case "seq":
+				return Val{T: EvSeq(obj.T), Ty: tyInt}
 			}
 		}
 	}
@@ -1066,7 +1070,7 @@ func (ex *Exec) checkFrame(env *Env, pos token.Pos) {
 	}
 	oldNext := ex.getHeap(ex.init, "$nextref", SInt)
 	for name, cur := range ex.cur.heap {
-		if whole[name] || name == "$nextref" || strings.HasPrefix(name, "$iter.") {
+		if whole[name] || name == "$nextref" || name == "$seq" || strings.HasPrefix(name, "$iter.") {
 			continue
 		}
 		pre := ex.getHeap(ex.init, name, cur.S)
